@@ -213,3 +213,21 @@ Proof.
   unfold step. change (v_cs (St v mid m)) with (v_cs v). rewrite Hi. cbn [req obind].
   rewrite cur_mid_St, Hc. cbn [obind]. rewrite Eop, E0, Ea0. reflexivity.
 Qed.
+
+(* ---- READ ---- *)
+Lemma step_read v mid m r rr instr k0 k1 k2 a0 a1 a2 :
+  at_ip v r mid instr ->
+  decode instr = {| f_op := READ; f_k0 := k0; f_k1 := k1; f_k2 := k2; f_a0 := a0; f_a1 := a1; f_a2 := a2 |} ->
+  step (St v mid m) r rr =
+  lift (match v_in v with
+        | [] => Good (SErr (St v mid m) (r_ctx r) (r_ip r) ErrRead [])
+        | line :: rest => v1 <~ vPush (set_in (St v mid m) rest) mid (VStr line) ;; Good (next v1 r)
+        end).
+Proof.
+  intros [Hi Hc] Hd. unfold decode in Hd. injection Hd as Eop E0 E1 E2 Ea0 Ea1 Ea2.
+  unfold step. change (v_cs (St v mid m)) with (v_cs v). rewrite Hi. cbn [req obind].
+  rewrite cur_mid_St, Hc. cbn [obind]. rewrite Eop. reflexivity.
+Qed.
+
+Lemma set_in_St v mid m l : set_in (St v mid m) l = St (set_in v l) mid m.
+Proof. reflexivity. Qed.
